@@ -116,8 +116,9 @@ Dispatch(k, c, m) ==
   /\ q' = Append(q, Task(k, c, m, Len(dseq[c]) + 1))
 
 \* ---- clients -------------------------------------------------------------
-EnvMayAct == /\ lpc # "done"
-             /\ (ShutdownMode = "quiescent" => shut = "no")
+\* the environment's scripts end with the shutdown signal (what clients do between the signal and the
+\* loop noticing it adds nothing: until then the loop treats them as before)
+EnvMayAct == /\ lpc # "done" /\ shut = "no"
              /\ (Mode = "lockstep" => lpc = "top")
 \* lockstep: at most one stream has unread input, so that the order of dispatch does not depend on the
 \* iteration order of the HashMap
